@@ -449,13 +449,13 @@ func RandValidJSONPatch(r *fw.Rand, doc map[string]interface{}, maxOps int, allo
 			op = map[string]interface{}{"op": "copy", "from": from.Ptr, "path": dst}
 		case 5:
 			l := fw.Pick(r, locs)
-			v, _ := oracle.ApplyRFC6902(cur, []interface{}{}, false)
+			v, _ := oracle.ApplyRFC6902(cur, []interface{}{}, oracle.Quirks{})
 			_ = v
 			toks, _ := oracle.ParsePointer(l.Ptr)
 			val := lookup(cur, toks)
 			op = map[string]interface{}{"op": "test", "path": l.Ptr, "value": oracle.DeepCopy(val)}
 		}
-		nx, err := oracle.ApplyRFC6902(cur, []interface{}{op}, false)
+		nx, err := oracle.ApplyRFC6902(cur, []interface{}{op}, oracle.Quirks{})
 		if err != nil {
 			continue // not valid on the current document: draw again
 		}
